@@ -230,6 +230,57 @@ def run(ck: Check) -> int:
                    '`!(` outside the C01 scope are outside the documented semantics (oos)')
     ck.search('pathspec-vs-globmatch', s_search)
 
+    def s_win(sr):
+        # THE SAME SPECIFICATION UNDER WINDOWS RULES (session 5; the content of C02win.C02_read_glob_win on the real code; added after seeded
+        # change C02m — the end-of-piece look-ahead of `!(…)` lost the backslash under FORCEWIN — which the Unix-only search could report as
+        # a broken proof obligation only): pattern without a backslash and without a drive-like beginning; FORCEWIN on a path whose
+        # separators are rewritten to backslashes (all / the first only) = the documented language, case folded, of the path itself.
+        import re as _re
+        deep = ck.deep()
+        ps = [p for p in (pats if (deep or not quick) else pats[:2000]) if '\\' not in p and not _re.match(r'(?s).:|//', p)]
+        cases = [(p, gen.random_flags(R, [b for b in bits if b not in (G.X, G.O)], 0.35, G.U) | G.I) for p in ps]
+        outs = P.pspec(drv, G, cases, paths, 0) if drv else []
+
+        def swaps(n):
+            out = [n.replace('/', '\\')]
+            if n.count('/') > 1:
+                i = n.index('/')
+                out.append(n[:i] + '\\' + n[i + 1:])
+            return out
+        for (p, fl), o in zip(cases, outs):
+            f = o.split(' ')
+            if f[0] != 'ok':
+                sr.histogram[f[0]] = sr.histogram.get(f[0], 0) + 1
+                continue
+            info = P.Info(f)
+            sr.distinct += 1
+            wfl = (fl & ~G.U & ~G.I) | G.W
+            try:
+                with common.time_limit(5):
+                    m = G.compile(p, flags=wfl)
+                    rows = []
+                    for n, b in zip(paths, info.bits):
+                        pieces = [x for x in n.split('/') if x]
+                        if '\n' in n or any(x.startswith('.') for x in pieces):
+                            continue
+                        for w in swaps(n):
+                            rows.append((n, w, b == '1', bool(m.match(w))))
+            except common.CallTimeout:
+                sr.histogram['timeout'] = sr.histogram.get('timeout', 0) + 1
+                continue
+            for n, w, exp, g in rows:
+                sr.evaluations += 1
+                if g != exp:
+                    kid = 'KF-D1p' if not info.start_safe else None
+                    ck.report(Failing(f'FORCEWIN: path {w!r} pattern {p!r}: code {g}, documented (case folded, on {n!r}) {exp}',
+                                      {'api': 'glob.globmatch', 'pattern': p, 'path': w, 'flags': wfl}, exp, g), kid)
+                    sr.histogram[kid or 'unattributed'] = sr.histogram.get(kid or 'unattributed', 0) + 1
+            if len(sr.samples) < 2:
+                sr.samples.append({'pattern': p, 'flags': hex(wfl), 'accepted': [w for _, w, _, g in rows if g][:4]})
+        sr.note = ('Windows rules: executable path specification under IGNORECASE on a path = glob.compile(FORCEWIN).match on the path with its '
+                   'separators rewritten to backslashes (all / the first only); visible pieces, patterns without backslash and drive-like beginning')
+    ck.search('pathspec-vs-globmatch-forcewin', s_win)
+
     def s_empty(sr):
         """the empty pattern (written as '', as a dangling backslash, as an empty SPLIT alternative, as an empty list member)
         has the language {''}: it matches no path with a non-empty piece, with or without MATCHBASE (added after seeded change
